@@ -1,7 +1,8 @@
 (* C15 - background variants that change the protein are refused unless explicitly forced.
    Only statements, closed by `exact`, and their assumptions. *)
 From Coq Require Import Permutation.
-From VV Require Import Model.Base Model.Pattern Model.CodonTable Model.BgValidate Proofs.BgValidateProofs.
+From VV Require Import Model.Base Model.Pattern Model.CodonTable Model.BgValidate Proofs.BgValidateProofs
+  Model.Gpo Model.PpeSeq Spec.LiftSpec Proofs.GpoTop Proofs.PpeLiftProofs.
 
 (* the loop of validate_background_variants refuses exactly when some variant starting in the targeton is counted as
    protein changing and force-bg-ns is off, or is also length changing and force-bg-indels is off *)
@@ -44,6 +45,13 @@ Theorem C15_ppe_on_background_refused : forall ppes bgs,
   exists p b, In (p, true) ppes /\ In b bgs /\ fst b <= p <= snd b.
 Proof. exact ppe_on_background_refused. Qed.
 
+(* a PAM protection edit of one of the targeton's guides on a base that a background variant deletes (coding or not, inside the
+   targeton or not) cannot be applied and is refused, whatever the flags (fix 7b135b7); every other edit is lifted *)
+Theorem C15_ppe_on_deleted_base_refused_iff : forall g r vs ppes, 0 < rs r -> wf (rs r) (re r) vs -> gpo_for g r vs ->
+  check_liftable g ppes =
+    if existsb (fun p => in_range p r && deleted vs p) ppes then Err InvalidBackgroundVariant else Ok tt.
+Proof. exact check_liftable_iff. Qed.
+
 (* non-vacuity: a synonymous SNV, then a missense SNV, then a 1-base coding insertion *)
 Example C15_example :
   let t := [mkRow (d "AAA") "K" 1; mkRow (d "AAG") "K" 2; mkRow (d "AGA") "R" 1]%string in
@@ -59,3 +67,4 @@ Print Assumptions C15_refusal_rule.
 Print Assumptions C15_verdict_order_free.
 Print Assumptions C15_verdict_local.
 Print Assumptions C15_ppe_on_background_refused.
+Print Assumptions C15_ppe_on_deleted_base_refused_iff.
